@@ -980,6 +980,10 @@ fn offer(ctx: &mut Ctx, c: &mut Counters, text: &[u8], what: &str) -> (Option<Rs
         let mut n = 2u64;
         let r = Rsync::from_slice(text).ok();
         let h = Https::from_slice(text).ok();
+        // every other way a text can become a URI value: the laws hold for whatever any of them accepts
+        if what != "parse" || crate::core::fnv64(text) % 4 == 0 {
+            n += other_doors(text, r.as_ref(), h.as_ref(), &mut f);
+        }
         let mut parents = (0u64, 0u64);
         if let Some(u) = &r {
             n += rsync_single(u, text, &mut f);
@@ -1015,6 +1019,109 @@ fn offer(ctx: &mut Ctx, c: &mut Counters, text: &[u8], what: &str) -> (Option<Rs
         }
         None => (None, None),
     }
+}
+
+/// The constructors besides `from_slice` — `from_str`, `from_string`,
+/// `from_bytes`, `TryFrom<String>`, and `Deserialize` over the token format
+/// with borrowed / transient / owned strings and over `serde_json::Value` —
+/// each given the same text. Whatever one of them accepts is an accepted URI:
+/// the value laws and the re-parse laws apply to it, and it must equal (and
+/// hash like) the value `from_slice` made if that accepted too.
+fn other_doors(text: &[u8], r: Option<&Rsync>, h: Option<&Https>, f: &mut Findings) -> u64 {
+    use crate::serde_tok::{from_tok, De, Strings, Tok};
+    let s = match std::str::from_utf8(text) {
+        Ok(s) => s,
+        Err(_) => {
+            // only the octet doors exist for text that is not UTF-8
+            let a = Rsync::from_bytes(Bytes::copy_from_slice(text)).ok();
+            let b = Https::from_bytes(Bytes::copy_from_slice(text)).ok();
+            if a.is_some() || b.is_some() {
+                f.push("C12:parse-from_bytes:non-utf8-accepted".into(), "from_bytes accepts text that is not UTF-8".into(), json!({"input": show(text)}));
+            }
+            return 2;
+        }
+    };
+    let tok = Tok::Str(s.to_string());
+    let de = |strings| De { human_readable: true, strings, structs_as_seq: false };
+    let mut n = 0u64;
+    let rs: [(&str, Option<Rsync>); 8] = [
+        ("from_str", Rsync::from_str(s).ok()),
+        ("from_string", Rsync::from_string(s.to_string()).ok()),
+        ("from_bytes", Rsync::from_bytes(Bytes::copy_from_slice(text)).ok()),
+        ("try_from", Rsync::try_from(s.to_string()).ok()),
+        ("serde-borrowed", from_tok::<Rsync>(&tok, de(Strings::Borrowed)).ok()),
+        ("serde-transient", from_tok::<Rsync>(&tok, de(Strings::Transient)).ok()),
+        ("serde-owned", from_tok::<Rsync>(&tok, de(Strings::Owned)).ok()),
+        ("serde-json-value", serde_json::from_value::<Rsync>(Value::String(s.to_string())).ok()),
+    ];
+    for (door, v) in rs.iter() {
+        n += 1;
+        let v = match v {
+            Some(v) => v,
+            None => continue,
+        };
+        if let Err((l, m)) = rsync_value_laws(v, text).and_then(|_| rsync_reparse_laws(v)) {
+            f.push(format!("C12:rsync-parse-{door}:{l}"), format!("rsync URI accepted by {door}: {m}"), json!({"input": show(text)}));
+        } else if let Some(u) = r {
+            if v != u || hash_of(v) != hash_of(u) {
+                f.push(format!("C12:rsync-parse-{door}:differs-from-from_slice"), "two constructors make unequal values of the same text".into(), json!({"input": show(text)}));
+            }
+        }
+    }
+    let hs: [(&str, Option<Https>); 8] = [
+        ("from_str", Https::from_str(s).ok()),
+        ("from_string", Https::from_string(s.to_string()).ok()),
+        ("from_bytes", Https::from_bytes(Bytes::copy_from_slice(text)).ok()),
+        ("try_from", Https::try_from(s.to_string()).ok()),
+        ("serde-borrowed", from_tok::<Https>(&tok, de(Strings::Borrowed)).ok()),
+        ("serde-transient", from_tok::<Https>(&tok, de(Strings::Transient)).ok()),
+        ("serde-owned", from_tok::<Https>(&tok, de(Strings::Owned)).ok()),
+        ("serde-json-value", serde_json::from_value::<Https>(Value::String(s.to_string())).ok()),
+    ];
+    for (door, v) in hs.iter() {
+        n += 1;
+        let v = match v {
+            Some(v) => v,
+            None => continue,
+        };
+        if let Err((l, m)) = https_value_laws(v, text).and_then(|_| https_reparse_laws(v)) {
+            f.push(format!("C12:https-parse-{door}:{l}"), format!("https URI accepted by {door}: {m}"), json!({"input": show(text)}));
+        } else if let Some(u) = h {
+            if v != u || hash_of(v) != hash_of(u) {
+                f.push(format!("C12:https-parse-{door}:differs-from-from_slice"), "two constructors make unequal values of the same text".into(), json!({"input": show(text)}));
+            }
+        }
+    }
+    // serialising an accepted value gives its text back, in both kinds of format
+    if let Some(u) = r {
+        for hr in [true, false] {
+            n += 1;
+            match crate::serde_tok::to_tok(u, hr) {
+                Ok(t) => {
+                    let back = crate::serde_tok::De::all(hr).into_iter().all(|d| matches!(from_tok::<Rsync>(&t, d), Ok(b) if b == *u && b.as_slice() == text));
+                    if !back {
+                        f.push("C12:rsync-serde:roundtrip".into(), format!("the serde form ({}) of an accepted URI does not read back to it over every transport", if hr { "human-readable" } else { "compact" }), json!({"input": show(text), "tokens": format!("{:?}", t)}));
+                    }
+                }
+                Err(e) => f.push("C12:rsync-serde:serialize-failed".into(), e.to_string(), json!({"input": show(text)})),
+            }
+        }
+    }
+    if let Some(u) = h {
+        for hr in [true, false] {
+            n += 1;
+            match crate::serde_tok::to_tok(u, hr) {
+                Ok(t) => {
+                    let back = crate::serde_tok::De::all(hr).into_iter().all(|d| matches!(from_tok::<Https>(&t, d), Ok(b) if b == *u && b.as_slice() == text));
+                    if !back {
+                        f.push("C12:https-serde:roundtrip".into(), format!("the serde form ({}) of an accepted URI does not read back to it over every transport", if hr { "human-readable" } else { "compact" }), json!({"input": show(text), "tokens": format!("{:?}", t)}));
+                    }
+                }
+                Err(e) => f.push("C12:https-serde:serialize-failed".into(), e.to_string(), json!({"input": show(text)})),
+            }
+        }
+    }
+    n
 }
 
 //------------ family laws ------------------------------------------------------
